@@ -16,7 +16,7 @@ use tape::Tape;
 
 fn usage() -> ! {
     eprintln!(
-        "usage:\n  simcheck check <PROPERTY> <quick|thorough>\n  simcheck worker <PROPERTY> <tier> <top-seed> <first-run> <count> <deadline-unix-ms> <out-file> <replay-dir>\n  simcheck exec <replay.json> [--trace]\n  simcheck replay <replay.json>\n  simcheck smoke <PROPERTY> <runs> [first]\n  simcheck determinism <PROPERTY> <runs>"
+        "usage:\n  simcheck check <PROPERTY> <quick|thorough>\n  simcheck worker <ENGINE> <PROFILE> <tier> <top-seed> <first-run> <count> <deadline-unix-ms> <out-file> <replay-dir>\n  simcheck exec <replay.json> [--trace]\n  simcheck replay <replay.json>\n  simcheck smoke <PROPERTY> <runs> [first]\n  simcheck determinism <PROPERTY> <runs>"
     );
     std::process::exit(2);
 }
@@ -70,19 +70,20 @@ fn main() {
             std::process::exit(parent::check(&args[2], &args[3], top_seed()));
         }
         "worker" => {
-            if args.len() < 10 {
+            if args.len() < 11 {
                 usage();
             }
-            let property = &args[2];
-            let tier = &args[3];
-            let top: u64 = args[4].parse().unwrap();
-            let first: u64 = args[5].parse().unwrap();
-            let count: u64 = args[6].parse().unwrap();
-            let deadline_ms: u128 = args[7].parse().unwrap();
-            let out = &args[8];
-            let replay_dir = &args[9];
-            let engine = engines::engine_for(property);
-            let beat = start_watchdog(parent::HANG_SECS, format!("{property} worker from run {first}"));
+            let engine = engines::engine_by_name(&args[2]);
+            let property = &args[3];
+            let tier = &args[4];
+            let top: u64 = args[5].parse().unwrap();
+            let first: u64 = args[6].parse().unwrap();
+            let count: u64 = args[7].parse().unwrap();
+            let deadline_ms: u128 = args[8].parse().unwrap();
+            let out = &args[9];
+            let replay_dir = &args[10];
+            let label = format!("{}:{}", engine.name(), property);
+            let beat = start_watchdog(parent::HANG_SECS, format!("{label} worker from run {first}"));
             for run in first..first + count {
                 let now_ms = std::time::SystemTime::now()
                     .duration_since(std::time::UNIX_EPOCH)
@@ -92,7 +93,7 @@ fn main() {
                     break;
                 }
                 beat.store(run + 1, std::sync::atomic::Ordering::SeqCst);
-                let seed = tape::run_seed(top, property, run);
+                let seed = tape::run_seed(top, &label, run);
                 let sc = engine.generate(property, seed, tier);
                 {
                     use std::io::Write;
@@ -165,14 +166,15 @@ fn main() {
             if args.len() < 4 {
                 usage();
             }
-            let property = &args[2];
+            let (engine, property) = engines::parse_label(&args[2]);
+            let property = &property;
             let runs: u64 = args[3].parse().unwrap();
             let first: u64 = args.get(4).and_then(|s| s.parse().ok()).unwrap_or(0);
-            let engine = engines::engine_for(property);
+            let label = format!("{}:{}", engine.name(), property);
             let mut ok = 0;
             let start = std::time::Instant::now();
             for run in first..first + runs {
-                let seed = tape::run_seed(top_seed(), property, run);
+                let seed = tape::run_seed(top_seed(), &label, run);
                 let sc = engine.generate(property, seed, "quick");
                 let sink = FatalSink {
                     scenario: sc.clone(),
@@ -209,14 +211,15 @@ fn main() {
         }
         "hashes" => {
             // print log hashes for a run range (used by the determinism check)
-            let property = &args[2];
+            let (engine, property) = engines::parse_label(&args[2]);
+            let property = &property;
+            let label = format!("{}:{}", engine.name(), property);
             let first: u64 = args[3].parse().unwrap();
             let count: u64 = args[4].parse().unwrap();
-            let engine = engines::engine_for(property);
             let _beat = start_watchdog(parent::HANG_SECS, "hashes".into());
             for run in first..first + count {
                 _beat.store(run + 1, std::sync::atomic::Ordering::SeqCst);
-                let seed = tape::run_seed(top_seed(), property, run);
+                let seed = tape::run_seed(top_seed(), &label, run);
                 let sc = engine.generate(property, seed, "quick");
                 let sink = FatalSink {
                     scenario: sc.clone(),
